@@ -229,7 +229,118 @@ def ctext(fb, fn, nid, depth=0):
         return ('%s%s' % (e(n['sub']), n['op'])) if n.get('postfix') else ('%s%s' % (n['op'], e(n['sub'])))
     if k == 'index':
         return '%s[%s]' % (e(n['base']), e(n['idx']))
+    if k == 'var' and n.get('vk') == 'local':
+        init = invariant_local_init(fb, fn, n['d'])
+        if init is not None:
+            return ctext(fb, fn, init, depth + 1)
     return fn.expr(nid)
+
+
+_PURE_FN_MEMO = {}
+
+
+def is_pure_fn(fb, g, depth=0):
+    """body reads only its parameters / constants: no `this`, no writes except to own locals, only calls to pure functions."""
+    key = (id(fb), g.usr, g.full)
+    if key in _PURE_FN_MEMO:
+        return _PURE_FN_MEMO[key]
+    _PURE_FN_MEMO[key] = False
+    ok = g.has_cfg and depth < 3
+    if ok:
+        for n in g.all_nodes():
+            k = n.get('k')
+            if k in ('this', 'new', 'delete', 'throw', 'lambda'):
+                ok = False
+            elif k == 'var' and n.get('vk') in ('global', 'static_member') and 'cv' not in n:
+                ok = False
+            elif k in ('assign',) or (k == 'unop' and n.get('op') in ('++', '--')):
+                x = scn(g, n['lhs'] if k == 'assign' else n['sub'])
+                if x is None or x.get('k') != 'var' or x.get('vk') != 'local':
+                    ok = False
+            elif k in ('call', 'construct') and 'cv' not in n:
+                hs = fb.by_usr.get(n.get('u'), [])
+                if not hs or not is_pure_fn(fb, hs[0], depth + 1):
+                    ok = False
+            if not ok:
+                break
+    _PURE_FN_MEMO[key] = ok
+    return ok
+
+
+def time_invariant(fb, fn, nid, depth=0):
+    """the expression has the same value whenever it is evaluated inside one activation of fn: constants, parameters and locals
+    that are never written after their initialisation (locals: with a time-invariant initialiser), operators, and calls of pure
+    static / free functions on such operands.  No object state, no non-static member calls."""
+    if nid is None or nid not in fn.nodes or depth > 12:
+        return False
+    written = assigned_vars(fn)
+    for x in fn.subtree(nid):
+        n = fn.nodes[x]
+        k = n.get('k')
+        if 'cv' in n and k != 'var':
+            continue
+        if k in ('wrap', 'icast', 'cast', 'lit', 'binop', 'sizeof'):
+            continue
+        if k == 'unop' and n.get('op') not in ('++', '--', '&', '*'):
+            continue
+        if k == 'var':
+            if n.get('vk') in ('enumconst', 'function') or 'cv' in n:
+                continue
+            if n.get('vk') in ('local', 'param') and n['d'] not in written and not _is_ref_or_ptr(fn, n):
+                if n.get('vk') == 'param':
+                    continue
+                init = local_init(fn, n['d'])
+                if init is not None and time_invariant(fb, fn, init, depth + 1):
+                    continue
+            return False
+        if k == 'call' and n.get('recv') is None and 'u' in n:
+            hs = fb.by_usr.get(n['u'], [])
+            if hs and (hs[0].static or hs[0].cls is None) and is_pure_fn(fb, hs[0]):
+                continue
+            return False
+        return False
+    return True
+
+
+def _is_ref_or_ptr(fn, n):
+    t = (n.get('t') or '').rstrip()
+    return t.endswith('&') or t.endswith('*')
+
+
+def invariant_local_init(fb, fn, d):
+    """initialiser of local d when `d` is a name for a time-invariant value (never written again), else None."""
+    if d in assigned_vars(fn):
+        return None
+    init = local_init(fn, d)
+    if init is None:
+        return None
+    for n in fn.all_nodes():
+        if n.get('k') == 'decl':
+            for v in n['vars']:
+                if v['d'] == d and (v.get('tC', '').rstrip().endswith('&') or v.get('tC', '').rstrip().endswith('*')):
+                    return None
+    return init if time_invariant(fb, fn, init) else None
+
+
+def resolve(fb, fn, nid):
+    """node id with casts stripped and names of time-invariant locals replaced by their initialiser (node level twin of ctext)."""
+    hops = 0
+    x = strip_casts(fn, nid)
+    while x is not None and hops < 6:
+        hops += 1
+        n = fn.nodes.get(x)
+        if n is None or n.get('k') != 'var' or n.get('vk') != 'local':
+            break
+        init = invariant_local_init(fb, fn, n['d'])
+        if init is None:
+            break
+        x = strip_casts(fn, init)
+    return x
+
+
+def rn(fb, fn, nid):
+    x = resolve(fb, fn, nid)
+    return fn.nodes.get(x) if x is not None else None
 
 
 def vars_in(fn, nid):
